@@ -80,6 +80,11 @@ theorem C11_dec_alloc_bounded (bs : Bytes) :
   have h7 := C11_dec_pf_alloc bs
   omega
 
+/-- the exec status a server sends to the client (`codex.getStatus`): at most 64 KiB ahead of the data -/
+theorem C11_dec_xst_alloc (bs : Bytes) : rdXst.alloc bs ≤ rdXst.consumed bs + 65535 := by
+  simpa using bnd_alloc rdXst bnd_xst bs
+theorem C11_dec_xst_total (bs : Bytes) : ∃ s r, rdXst.dec bs = .ok (s, r) := xst_total bs
+
 /-- `GetInitMsg` has no error result: it answers every input with a name (short input is
 zero-padded, as in the Go code) -/
 theorem C11_dec_ua_total (bs : Bytes) : ∃ u r, rdUA.dec bs = .ok (u, r) := ua_total bs
